@@ -104,6 +104,31 @@ void harness (void)
     if (allfit)
 	VP_ASSERT (ok, "representable affine result reported as TRUE");
     if (ok) VP_ASSERT (v.vector[2] == pixman_fixed_1, "w == 1");
+#elif MODE == 8
+    /* HOMOGENEOUS: transform_point with a matrix whose bottom row is (0 0 1) (menu) and a vector whose
+     * w is NOT 1 (menu -DWSEL): the result is (M v) divided by w, nearest; FALSE iff w == 0 or unrepresentable */
+    static const int32_t vp_ws[] = { 2 * 65536, 32768, -65536, 0, 1, 3 * 65536, 0x10001, INT32_MIN };
+    for (i = 0; i < 2; i++) for (j = 0; j < 3; j++) t.matrix[i][j] = vp_mats[MAT_SEL][3 * i + j];
+    t.matrix[2][0] = t.matrix[2][1] = 0; t.matrix[2][2] = pixman_fixed_1;
+    for (i = 0; i < 2; i++) VP_SYM_IDX (v.vector, i);
+    v.vector[2] = vp_ws[WSEL];
+    v0 = v;
+    pixman_bool_t ok = pixman_transform_point (&t, &v);
+    i128 d = (i128) 65536 * vp_ws[WSEL];		/* row 2 . v, units 2^-32 */
+    i128 ad = d < 0 ? -d : d;
+    int toobig = 0;
+    for (i = 0; i < 2; i++)
+    {
+	i128 n = o_prod (t.matrix[i][0], v0.vector[0]) + o_prod (t.matrix[i][1], v0.vector[1]) + o_prod (t.matrix[i][2], v0.vector[2]);
+	i128 e = (i128) v.vector[i] * d - 65536 * n;	/* r*d - 65536 n : zero iff r/65536 == n/d */
+	if (e < 0) e = -e;
+	if (ok)
+	    VP_ASSERT (d != 0 && 2 * e <= ad, "homogeneous result is (M v)/w rounded to nearest");
+	i128 an = n < 0 ? -n : n;
+	if (65536 * an >= ad * (i128) INT32_MAX) toobig = 1;
+    }
+    if (ok) VP_ASSERT (v.vector[2] == pixman_fixed_1, "w == 1 after the homogeneous divide");
+    if (!ok) VP_ASSERT (d == 0 || toobig, "FALSE only for w == 0 or an unrepresentable quotient");
 #elif MODE == 2
 #ifdef FULL
     for (i = 0; i < 3; i++) for (j = 0; j < 3; j++) VP_SYM_IDX2 (t.matrix, i, j);
